@@ -446,7 +446,8 @@ def value_leaves(repo, fi, e, depth=0, seen=None):
         return out
     if isinstance(e, ast.Call) and call_name(e) != 'html_escape':
         g = _resolve_callee(repo, fi.mod, fi, e)
-        if g is not None and not _is_generator(g.node) and not g.node.decorator_list and (id(g.node), '()') not in seen:
+        plain = g is not None and all(isinstance(d, ast.Name) and d.id in ('staticmethod', 'classmethod') for d in g.node.decorator_list)
+        if plain and not _is_generator(g.node) and (id(g.node), '()') not in seen:
             seen.add((id(g.node), '()'))
             out = []
             for r in returns_of(g):
@@ -1132,14 +1133,36 @@ def rule_e(rep, repo, err, base, fam):
         m = c.methods.get('to_dict')
         if m is None:
             continue
-        sups = [s for s in stmts_of(m.node) if isinstance(s, ast.Assign) and isinstance(s.value, ast.Call) and isinstance(s.value.func, ast.Attribute)
-                and s.value.func.attr == 'to_dict' and ('super' in norm(s.value.func) or norm(s.value.func.value) in [norm(b) for b in c.node.bases])]
-        ok = len(sups) == 1 and all(r.value is not None and norm(r.value) == norm(sups[0].targets[0]) for r in returns_of(m)) and returns_of(m) \
-            and not _falls_off(m)
+        bases = [norm(b) for b in c.node.bases]
+
+        def is_super_dict(e):
+            return isinstance(e, ast.Call) and isinstance(e.func, ast.Attribute) and e.func.attr == 'to_dict' and \
+                ('super' in norm(e.func) or norm(e.func.value) in bases)
+        rets = returns_of(m)
+        ok = bool(rets) and not _falls_off(m)
+        holders = set()
+        for r in rets:
+            if r.value is None:
+                ok = False
+                continue
+            if isinstance(r.value, ast.Name):
+                # the local that holds the super() result (assigned once, extended in place afterwards)
+                binds = assigned_value(m.node, r.value.id)
+                if len(binds) == 1 and binds[0][2] is None and isinstance(binds[0][0], ast.Assign) and is_super_dict(binds[0][1]):
+                    holders.add(r.value.id)
+                    continue
+            # ... or a merge whose bottom layer is the super() result and whose own keys do not replace a standard field
+            try:
+                ls = layers_of_expr(expand_expr(m, r.value, r))
+            except AnalysisError:
+                ls = []
+            if not (ls and ls[0].kind == 'source' and is_super_dict(ls[0].node) and
+                    all(l.kind == 'literal' and not (set(l.keys) & need) for l in ls[1:])):
+                ok = False
         dels = [n_ for n_ in walk_body(m.node) if isinstance(n_, ast.Delete) and any(isinstance(t.slice, ast.Constant) and t.slice.value in need
                                                                                   for t in n_.targets if isinstance(t, ast.Subscript))]
-        pops = [n_ for n_ in walk_body(m.node) if isinstance(n_, ast.Call) and isinstance(n_.func, ast.Attribute) and sups and
-                norm(n_.func.value) == norm(sups[0].targets[0]) and n_.func.attr in ('pop', 'clear', 'popitem') and
+        pops = [n_ for n_ in walk_body(m.node) if isinstance(n_, ast.Call) and isinstance(n_.func, ast.Attribute) and
+                norm(n_.func.value) in holders and n_.func.attr in ('pop', 'clear', 'popitem') and
                 (n_.func.attr != 'pop' or not n_.args or not isinstance(n_.args[0], ast.Constant) or n_.args[0].value in need)]
         rep.check('R09.e', fkey(m), bool(ok) and not dels and not pops, '%s.to_dict extends the super() result' % c.name if ok and not dels and not pops else
                   '%s.to_dict does not return the extended super().to_dict() (standard fields may be lost)' % c.name, err, m.node)
